@@ -16,6 +16,7 @@ extern "C"
     void h_wake_end(void);
     void h_delegate_parking(int id, int prio, void *head);
     void h_delegate_woken(int id, long fut);
+    void h_delegate_handler(int id, int which, int expected);
     void h_push_begin(int prod, int seq);
     void h_push_end(int prod, int seq);
     void h_pop_begin(void);
